@@ -222,6 +222,27 @@ func lcgBytes(n int, seed uint32, symbols int) []byte {
 	return b
 }
 
+// binaryLike is pseudo-binary data: about half of the bytes are lo, a quarter hi, the rest random -
+// the byte values 0x00/0x01 that text never contains, frequent enough to sit high in the adaptive
+// tree when it is rebuilt.
+func binaryLike(n int, seed uint32, lo, hi byte) []byte {
+	b := make([]byte, n)
+	x := seed
+	for i := range b {
+		x = x*1664525 + 1013904223
+		switch v := byte(x >> 24); {
+		case v < 128:
+			b[i] = lo
+		case v < 192:
+			b[i] = hi
+		default:
+			x = x*1664525 + 1013904223
+			b[i] = byte(x >> 24)
+		}
+	}
+	return b
+}
+
 func periodic(n, p int) []byte {
 	b := make([]byte, n)
 	for i := range b {
@@ -275,6 +296,15 @@ func longFamily(thorough bool) []namedInput {
 				namedInput{fmt.Sprintf("text/%d", n), corpusText(n)},
 			)
 		}
+	}
+	// long enough for at least one rebuild of the adaptive tree (32 K coded symbols) with the lowest
+	// byte values in it
+	for _, n := range []int{120000} {
+		out = append(out,
+			namedInput{fmt.Sprintf("binary-00-01/%d", n), binaryLike(n, 4711, 0x00, 0x01)},
+			namedInput{fmt.Sprintf("binary-01-00/%d", n), binaryLike(n, 4712, 0x01, 0x00)},
+			namedInput{fmt.Sprintf("binary-ff-fe/%d", n), binaryLike(n, 4713, 0xff, 0xfe)},
+		)
 	}
 	if thorough {
 		out = append(out, namedInput{"text/full", corpusText(1 << 30)})
